@@ -6,7 +6,7 @@
    are in Proofs/Lts{Inv,Safe,Term,C04}.v. *)
 From Coq Require Import List Arith Bool PeanoNat.
 From FS Require Import Model.Lts Model.LtsExplore Proofs.LtsInv Proofs.LtsSafe Proofs.LtsTerm Proofs.LtsC04
-  Proofs.LtsClean1 Proofs.LtsClean3 Proofs.LtsClean5.
+  Proofs.LtsClean1 Proofs.LtsClean3 Proofs.LtsClean5 Proofs.LtsLive2 Proofs.LtsLive3.
 Import ListNotations.
 
 (* In every reachable state (every interleaving, every fault sequence, every parameter):
@@ -78,16 +78,36 @@ Proof. exact old_queue_deadlock_proof. Qed.
 (* fault_free_completes, safety half: a run without fault, cancellation, stream failure or
    tear-down never fails — when it is complete (both calls returned, no goroutine live) both
    calls have returned nil; for every interleaving, W, P, C, C2 and stream capacities >= 0
-   (wf_params: an entry whose content is requested is a regular file).
-   NOT PROVED (liveness half, exact statement also in props/C04.json):
-     forall p ls st, wf_params p -> p_W p >= 1 -> fault_free ls -> run p (init p) ls = Some st ->
-       final st = false -> exists l, fault_free_label l = true /\ step p st l <> None
-   (no capacity hypothesis is expected to be needed: the receiver's chain receive loop -> fill ->
-   diff never waits for the stream; exhaustive searches with every capacity 0 and 1 below). *)
+   (wf_params: an entry whose content is requested is a regular file). *)
 Theorem fault_free_completes_partial : forall p ls st, wf_params p -> fault_free ls ->
   run p (init p) ls = Some st -> final st = true ->
   send_ret st = Some true /\ recv_ret st = Some true.
 Proof. exact fault_free_success_proof. Qed.
+
+(* fault_free_completes, liveness half (no deadlock): every fault-free execution that has not
+   ended with both calls returned and every goroutine gone can be extended by a fault-free step
+   — for every W >= 1 and ALL capacities >= 0 of the send pipeline, the walker channel, the diff
+   channel and both stream directions (no capacity hypothesis is needed: the receiver's chain
+   receive loop -> fill -> diff never waits for the stream).  Together with the safety half:
+   a fault-free execution that cannot be extended has ended with both calls returning nil.
+   Finiteness is part of fault_free_completes below. *)
+Theorem fault_free_progress : forall p ls st, wf_params p -> p_W p >= 1 -> fault_free ls ->
+  run p (init p) ls = Some st -> final st = false ->
+  exists l, fault_free_label l = true /\ step p st l <> None.
+Proof. exact fault_free_progress_proof. Qed.
+
+(* fault_free_completes, in full: every execution without fault, cancellation, stream failure or
+   tear-down has at most [nu p (init p)] steps (a measure of the work still to be done strictly
+   decreases on every step); as long as it is not complete it can be extended by a fault-free
+   step; and when it is complete both calls have returned nil.  Hence every fault-free execution
+   that cannot be extended is finite and ends with both calls returning nil and no goroutine
+   live — for every interleaving, every W >= 1 and all capacities >= 0. *)
+Theorem fault_free_completes : forall p ls st, wf_params p -> p_W p >= 1 -> fault_free ls ->
+  run p (init p) ls = Some st ->
+  length ls <= nu p (init p) /\
+  (final st = false -> exists l, fault_free_label l = true /\ step p st l <> None) /\
+  (final st = true -> send_ret st = Some true /\ recv_ret st = Some true).
+Proof. exact fault_free_completes_proof. Qed.
 
 (* Without tear-down the progress half is FALSE once a fault has happened: one NotifyHashed
    error on the receiver, more outstanding requests than P + W + cap(r->s), and every goroutine
@@ -106,6 +126,8 @@ Proof. exact no_teardown_deadlock_proof. Qed.
 
 Print Assumptions no_false_success.
 Print Assumptions fault_free_completes_partial.
+Print Assumptions fault_free_progress.
+Print Assumptions fault_free_completes.
 Print Assumptions progress_without_teardown_refuted.
 Print Assumptions torn_down_terminates.
 Print Assumptions fault_reaches_peer.
